@@ -3,7 +3,8 @@
 Oracle (real code only, numpy, written from the property statement; uses ONLY the returned indices, positions and
 quaternions): indices distinct / existing / of the pattern's elements in pattern order; every returned position = stored
 position of the indexed atom + an integer lattice vector; the returned quaternion is a proper rotation which, with a
-suitable translation, carries the pattern onto the returned positions within atol (+ the code's own rtol 1e-5·|x|);
+suitable translation, carries the pattern onto the returned positions within the REQUESTED atol, per coordinate (no
+relative term: wherever the fragment sits);
 a mirror-image decoy of a CHIRAL pattern is never among the matches.
 Tie: the same search through the Lean model (Model/Find.lean) with the rotation oracle / choices exported by the hook;
 compared: near window, candidate groups, tuples passing the rotation re-check, reported matches (indices exactly,
@@ -37,12 +38,16 @@ RULE = ("periodic structures from findlib.planted_structure: 0-3 planted rigid c
         "edits of atom_types, atom_type_elements, positions between searches) each compared with a fresh evaluation; the Atoms "
         "objects are obtained through Atoms(elements=), Atoms(atom_types=, atom_type_elements=), ase.Atoms -> from_ase_atoms "
         "(oddly oriented triclinic cells), copy(), a[idx], integer coordinate arrays - ground truth is always the generator's own "
-        "lists; ghost copies that exist only under a re-oriented / transposed reading of the cell. "
+        "lists; ghost copies that exist only under a re-oriented / transposed reading of the cell; tight cells (smallest width only 3-30 % "
+        "above diameter + 2 atol), left-handed cells, hints as negative / numpy integers; 60-80 A cells with atol 2e-5 / 1e-4 and "
+        "flat patterns with one inner atom 4-6 atol off the line / plane (invisible to the distance screen) far from the origin; "
+        "tolerances above the distance of two same-element pattern atoms with ONE atom at their midpoint; 35 % of the structures "
+        "store atoms OUTSIDE the cell (each by its own lattice vector of up to 2 cells). "
         "Thorough adds the complete grid origin-fraction^3 x 4 poses x 11 patterns x 3 cell kinds. "
         "Non-trivial = the search reported at least one match of a pattern with >= 2 atoms AND (a planted copy straddles "
         "a cell face OR the structure contains a decoy with the pattern's geometry).")
 
-GEOM_DECOYS = ("mirror", "nearmiss", "wrongelem", "permuted", "stretch", "merged", "ghost")
+GEOM_DECOYS = ("mirror", "nearmiss", "wrongelem", "permuted", "stretch", "merged", "ghost", "sideways")
 
 
 # ------------------------------------------------------------------ the property, on the real result
@@ -91,7 +96,7 @@ def oracle_sound(inp, ok):
         best = None
         for t in cands:
             fit = img + t
-            excess = (np.abs(X - fit) - (atol + 1e-5 * np.abs(fit) + 1e-9)).max()
+            excess = (np.abs(X - fit) - (atol + 1e-9)).max()      # the requested absolute tolerance is the whole tolerance
             best = excess if best is None else min(best, excess)
         if best > 0:
             return ("match %d: no translation makes the returned rotation carry the pattern onto the returned positions "
@@ -107,7 +112,7 @@ def oracle_sound(inp, ok):
 def oracle_indices(inp, idx_list):
     """the property on an index-only result (return_positions_and_quats=False): shape, existence, elements in pattern
     order, distinctness, and a NECESSARY condition of "rigid image within atol": every interatomic pattern distance is
-    reproduced, for some periodic images, within 2·√3·(atol + 1e-5·|x|max). Returns None or (text, observed)."""
+    reproduced, for some periodic images, within 2·√3·atol. Returns None or (text, observed)."""
     elems = inp["elems"]
     n = len(elems)
     S = np.array(inp["pos"], dtype=float).reshape(n, 3)
@@ -116,8 +121,11 @@ def oracle_indices(inp, idx_list):
     P = np.array(inp["pattern"]["pos"], dtype=float).reshape(len(pel), 3)
     atol = float(inp["atol"])
     xmax = (np.abs(S).max() if n else 0.0) + np.abs(cell).sum(axis=0).max()
-    bound = 2 * np.sqrt(3.0) * (atol + 1e-5 * xmax) + 1e-9
+    bound = 2 * np.sqrt(3.0) * atol + 1e-9 * (1.0 + xmax)
     offs = np.array(list(itertools.product(range(-2, 3), repeat=3)), dtype=float).dot(cell)
+    if n:
+        # "for some periodic images": atoms may be stored cells away from each other, compare their images in one cell
+        S = (S.dot(np.linalg.inv(cell)) % 1.0).dot(cell)
     for mi, idx in enumerate(idx_list):
         idx = [int(a) for a in idx]
         if len(idx) != len(pel):
@@ -154,7 +162,7 @@ def inp_of(case, atol, hints, seed, **style):
 def call_find(s, p, inp):
     """ONE call of the real search with the hook installed; every argument as `inp` says:
     positions (return_positions_and_quats), omit_defaults (keywords at their default value are not passed at all),
-    verbose, np_hints (hints as numpy integers). Returns dict(ok | err, hook)."""
+    verbose, np_hints (hints as numpy integers), neg_hints (hints as negative indices). Returns dict(ok | err, hook)."""
     import mofun.mofun as mm
     sink = fl.Sink()
     mm._verif_sink = sink
@@ -164,6 +172,8 @@ def call_find(s, p, inp):
     kw = {}
     for nm, h in zip(names, inp["hints"]):
         if h is not None:
+            if inp.get("neg_hints"):
+                h = h - len(inp["pattern"]["elems"])       # the same atom, counted from the end (-1 = last)
             kw[nm] = np.int64(h) if inp.get("np_hints") else int(h)
         elif not inp.get("omit_defaults"):
             kw[nm] = None
@@ -361,7 +371,8 @@ def tags_of(inp):
     t = ["cell:" + i["cell"], "pattern:" + i["pattern"], "atol:%g" % inp["atol"], "cross:%d" % g.crossings(inp),
          "pose:" + str(i.get("pose")), "place:" + str(i.get("boundary")),
          "hints:" + "".join("x" if h is not None else "-" for h in inp["hints"]),
-         "via:" + inp.get("route", "elements"), "pattern via:" + inp.get("proute", "elements")]
+         "via:" + inp.get("route", "elements"), "pattern via:" + inp.get("proute", "elements"),
+         "stored:" + ("unwrapped" if i.get("unwrapped") else "inside the cell")]
     return t + sorted(set("decoy:" + k for k, _ in inp["decoys"]))
 
 
@@ -442,9 +453,19 @@ def lean_parallel(lean, ops):
     return res
 
 
+def on_a_face(inp):
+    """some atom sits within 1e-9 (fractional) of a cell face: into which cell `floor(position · cell⁻¹)` puts it is a
+    matter of floating-point rounding — such a case is not compared when model and code differ"""
+    f = np.array(inp["pos"], dtype=float).reshape(-1, 3).dot(np.linalg.inv(np.array(inp["cell"], dtype=float)))
+    return bool(len(f)) and float(np.abs(f - np.round(f)).min()) < 1e-9
+
+
 def tie(ctx, pairs):
     """pairs: [(inp, res)] with res ok -> model run, comparison of the views"""
     ops = [fl.find_op(inp, inp["atol"], tuple(inp["hints"]), res["hook"]) for inp, res in pairs]
+    for (inp, _), op in zip(pairs, ops):
+        k = len(inp["pattern"]["elems"])             # the model counts from the front: -1 is atom k-1
+        op["axis"] = [a if (a is None or a >= 0) else a + k for a in op.get("axis", [])]
     models = lean_parallel(ctx.lean, ops)
     doubtful = []
     for (inp, res), op, m in zip(pairs, ops, models):
@@ -459,7 +480,7 @@ def tie(ctx, pairs):
             doubtful.append((inp, op, iv, mv))
     # disagreements: decided by floating-point rounding on a threshold? (then ambiguous, not compared)
     for (inp, op, iv, mv), stable in zip(doubtful, stable_batch(ctx.lean, [d[1] for d in doubtful])):
-        if not stable:
+        if not stable or on_a_face(inp):
             ctx.ambiguous += 1
         else:
             ctx.compare("find", inp, iv, mv)
@@ -488,6 +509,8 @@ def grid_inp(seed, task):
     case = g.planted_at(rng, pname, ck, pose, fr, atol)
     if ck != "ortho" and rng.random() < 0.3:
         g.add_ghost(rng, case, atol)
+    if rng.random() < 0.25:
+        g.unwrap_atoms(rng, case)
     return inp_of(case, atol, g.valid_hints(rng, case["pattern"]) if rng.random() < 0.3 else (None, None, None),
                   rng.randrange(1 << 30), **g.pick_routes(rng, case))
 
@@ -543,8 +566,14 @@ def run(ctx, oracle_only=False, scale=1):
         elif u < 0.06:
             case, atol, hints = g.int_case(rng)
             integer = True
+        elif u < 0.16:
+            case, atol, hints = g.tight_case(rng)      # widths only 3-30 % above diameter + 2 atol; left-handed cells
+        elif u < 0.26:
+            case, atol, hints = g.far_case(rng)        # large cell, small tolerance, fragments far from the origin
         else:
             case, atol, hints = g.random_case(rng)
+        if not integer and atol > 0 and rng.random() < 0.35:
+            g.unwrap_atoms(rng, case)                  # atoms stored up to two cells away from the home cell
         style = g.call_style(rng, atol, hints)
         style.update(g.pick_routes(rng, case, route=case.pop("want_route", None)))
         if integer:
